@@ -261,6 +261,12 @@ class Concat(Expr):
             ):
                 return
 
+            if self.axis == 0 and any(len(cols) == 0 for cols in columns_frame):
+                # Stacking rows: a frame without any of the projected columns
+                # still contributes its rows (as missing values), so it can't
+                # be dropped, and there is no empty projection to push into it
+                return
+
             frames = [
                 (
                     frame[cols]
